@@ -286,6 +286,107 @@ func suppression(c *evid.Ctx) {
 	}
 }
 
+// intervalHistories: the suppression interval is a setting that changes while the logger runs. Every
+// history (length <= 5) of logging one of two ids, letting 2 s or 11 s pass and setting the interval to
+// 0, 1 or 10 s: a message is suppressed only while a line with its id was written less than the
+// interval *now in force* ago, and a repeat inside an interval that did not change is suppressed.
+func intervalHistories(c *evid.Ctx) {
+	vrt.Policy = vrt.PolicySuppressed
+	defer func() { vrt.Policy = vrt.PolicyReal }()
+	type op struct {
+		name string
+		id   string
+		adv  time.Duration
+		iv   int
+	}
+	ops := []op{{"log(X)", "WX001", 0, -1}, {"log(Y)", "WY002", 0, -1}, {"+2s", "", 2 * time.Second, -1}, {"+11s", "", 11 * time.Second, -1},
+		{"interval=0", "", 0, 0}, {"interval=1s", "", 0, 1}, {"interval=10s", "", 0, 10}}
+	var rec func(hist []op)
+	run := func(hist []op) {
+		c.Count("interval_histories", 1)
+		c.Count("evaluations", 1)
+		mem := vos.NewMemFS()
+		vos.Use(mem)
+		defer vos.Use(nil)
+		now := time.Date(2024, 3, 10, 12, 0, 0, 0, time.UTC)
+		vtime.SetVirtual(now)
+		defer vtime.ClearVirtual()
+		mem.MkdirAll(logsDir)
+		fl := newLogger(logger.LOG_LEVEL_WARN)
+		iv := 10
+		fl.VerifSet(iv, 7, true)
+		type line struct {
+			id      string
+			at      time.Time
+			payload string
+			must    string // "written" | "suppressed" | "" (either)
+		}
+		var lines []line
+		lastWritten := map[string]time.Time{} // by the reference reading of the property
+		constSince := map[string]bool{}       // interval unchanged (and > 0) since the id's last written line
+		desc := ""
+		for i, o := range hist {
+			desc += " " + o.name
+			switch {
+			case o.id != "":
+				l := line{id: o.id, at: now, payload: fmt.Sprintf("payload-%d-of-%s", i, o.id)}
+				lw, seen := lastWritten[o.id]
+				switch {
+				case iv == 0 || !seen || now.Sub(lw) >= time.Duration(iv)*time.Second:
+					l.must = "written"
+				case constSince[o.id]:
+					l.must = "suppressed"
+				}
+				fl.Println(o.id, l.payload)
+				lines = append(lines, l)
+			case o.adv > 0:
+				vtime.Advance(o.adv)
+				now = now.Add(o.adv)
+			default:
+				iv = o.iv
+				fl.VerifSet(iv, 7, true)
+				for k := range constSince {
+					constSince[k] = false
+				}
+			}
+			if o.id != "" {
+				// what was really written decides the rest of the history
+				var all strings.Builder
+				for _, nm := range mem.List(logsDir) {
+					data, _ := mem.ReadFile(logsDir + "/" + nm)
+					all.Write(data)
+				}
+				l := &lines[len(lines)-1]
+				written := strings.Contains(all.String(), l.payload)
+				if l.must == "written" && !written {
+					c.Violation("C17:interval-history:lost-line", fmt.Sprintf("history%s: the last message (id %s) is not in the log although no line with its id was written within the interval now in force (%d s)", desc, l.id, iv), map[string]interface{}{"engine": "E2", "history": desc})
+					return
+				}
+				if l.must == "suppressed" && written {
+					c.Violation("C17:interval-history:rate-limit", fmt.Sprintf("history%s: the last message (id %s) was written although a line with its id was written less than the (unchanged) interval of %d s before", desc, l.id, iv), map[string]interface{}{"engine": "E2", "history": desc})
+					return
+				}
+				if written {
+					lastWritten[l.id] = now
+					constSince[l.id] = iv > 0
+				}
+			}
+		}
+	}
+	rec = func(hist []op) {
+		if len(hist) > 0 && hist[len(hist)-1].id != "" {
+			run(hist)
+		}
+		if len(hist) == 5 {
+			return
+		}
+		for _, o := range ops {
+			rec(append(append([]op{}, hist...), o))
+		}
+	}
+	rec(nil)
+}
+
 func classOf(f fileSpec) string {
 	switch {
 	case f.dir:
@@ -757,6 +858,7 @@ func Run(c *evid.Ctx) {
 	retention(c)
 	readWindow(c)
 	readPaths(c)
+	intervalHistories(c)
 	suppression(c)
 	reopen(c)
 	shard.Spawn(c, 16, true)
